@@ -8,7 +8,7 @@ From Coq Require Import Lia ZifyBool ZifyNat ZifyN.
 From WV Require Import Model.Base Generated.Consts Model.Bits Model.Leb128 Model.WaveMem
   Spec.TimeSpec Spec.StoreSpec
   Proofs.BitsProofs Proofs.LebProofs Proofs.WaveMemProofs Proofs.TimeTableProofs Proofs.StoreProofs
-  Proofs.EncoderProofs Proofs.RealStringProofs.
+  Proofs.EncoderProofs Proofs.RealStringProofs Proofs.CanonProofs.
 Ltac Zify.zify_post_hook ::= Z.div_mod_to_equations.
 Open Scope N_scope.
 Arguments N.add : simpl never. Arguments N.mul : simpl never. Arguments N.div : simpl never.
@@ -669,7 +669,7 @@ Theorem storage_transparent_rs str tpes ops e blocks ttb :
   run_ops parse_f64 lz_compress cap (enc_new tpes) ops = Ok e ->
   enc_finish lz_compress e = Ok (blocks, ttb) -> N.of_nat (length ttb) < 4294967296 ->
   exists R sig,
-    Forall2 (gdecodes parse_f64 str) R (recorded_rs id ops [] false) /\
+    Forall2 (gdecodes parse_f64 str) R (recorded_rs id ops [] false) /\ Forall (payload_ok str) R /\
     load_signal lz_decompress blocks id (rs_tpe str) = Ok sig /\
     observe_signal sig = Ok (map (fun a : gent => (fst a, if str then KString else KReal, snd a)) (gdedup R)).
 Proof.
@@ -681,7 +681,7 @@ Proof.
   cbn [app] in Hs. cbn [enc_new e_skip] in Hdec.
   assert (Htab0 : table (enc_new tpes) = []) by reflexivity. rewrite Htab0 in Hdec.
   destruct (gfinish_sinv parse_f64 parse_f64_len lz_compress cap cap_pos cap_u16 id str e bl1 es1 R blocks ttb Hs ltac:(lia) Hfin) as (bl & -> & Hbok & Habs & Hbl).
-  exists R. eexists. split; [exact Hdec|].
+  exists R. eexists. split; [exact Hdec|]. split; [exact (gi_rec _ _ _ _ _ _ _ _ Hs)|].
   rewrite (gload_signal_blocks lz_compress lz_decompress lz_ok str id bl Hbok). split; [reflexivity|].
   rewrite (gblks_spec_fold str bl 0 []) by lia. rewrite Habs, map_unemb_emb, push_canon_gdedup. cbn [last_opt option_map app].
   fold (gdedup R).
@@ -691,6 +691,225 @@ Proof.
 Qed.
 
 End GTransparent.
+
+(* ------------------------------------------------------------------ several encoders (parser threads) appended *)
+
+Definition gshift (k : N) (R : list gent) : list gent := map (fun a : gent => (k + fst a, snd a)) R.
+
+Lemma gshift_shift a b R : gshift a (gshift b R) = gshift (a + b) R.
+Proof. unfold gshift. rewrite map_map. apply map_ext. intros [g p]. cbn [fst snd]. f_equal. lia. Qed.
+Lemma gshift_app k R1 R2 : gshift k (R1 ++ R2) = gshift k R1 ++ gshift k R2.
+Proof. unfold gshift. apply map_app. Qed.
+Lemma gshift_0 R : gshift 0 R = R.
+Proof. unfold gshift. rewrite <- (map_id R) at 2. apply map_ext. intros [g p]. reflexivity. Qed.
+
+Fixpoint gcat_shift (l : list (list gent * N)) (off : N) : list gent :=
+  match l with
+  | [] => []
+  | (R, n) :: r => gshift off R ++ gcat_shift r (off + n)
+  end.
+
+Section GAppend.
+Variable parse_f64 : list byte -> option (list byte).
+Hypothesis parse_f64_len : forall r le, parse_f64 r = Some le -> length le = 8%nat.
+Variable lz_compress : list byte -> list byte.
+Variable lz_decompress : list byte -> nat -> option (list byte).
+Hypothesis lz_ok : forall d n, (length d <= n)%nat -> lz_decompress (lz_compress d) n = Some d.
+Variable cap : N.
+Hypothesis cap_pos : 1 <= cap.
+Hypothesis cap_u16 : cap <= 65536.
+Variable id : nat.
+
+(* an encoder whose pending data has been moved into blocks *)
+Definition gfin (str : bool) (e : encoder) (bl : list blk) (R : list gent) : Prop :=
+  e_new e = false /\ e_blocks e = map (blk_block lz_compress) bl /\ Forall (gblk_ok str id) bl /\
+  blocks_abs bl 0 = map emb R /\ Forall (payload_ok str) R.
+
+Lemma gfinish_block_fin str e bl es R e1 : gsinv lz_compress cap id str e bl es R ->
+  gcost R < 4294967264 ->
+  finish_block lz_compress e = Ok e1 -> exists bl', gfin str e1 bl' R /\ blocks_len bl' = N.of_nat (length (table e)).
+Proof.
+  intros Hs Hbud H. assert (Htl : N.of_nat (length (table e)) = blocks_len bl + e_len e) by (eapply gtable_len; eauto).
+  destruct Hs as [Hinv Hcap Hbl Hok Hidle (se & Hn & Htp & Hd & Hwf & Hprev & Hsz) Hcnt Habs Hrec].
+  pose proof Hinv as [Hlen Hnew Hidl Hlast].
+  unfold WaveMem.finish_block in H.
+  destruct (e_new e) eqn:Enew; cbn [negb] in H.
+  - destruct (finish_signals lz_compress (e_signals e) []) as [[sigs' offs] data] eqn:Efs.
+    destruct (last_opt (e_ttr e)) as [stt|] eqn:El; [|cbn in H; discriminate].
+    destruct (hd_error (e_ttr e)) as [endt|] eqn:Eh; [|cbn in H; discriminate].
+    cbn [of_option bind] in H. inversion H; subst e1; clear H.
+    set (x := (e_signals e, stt, rev (e_ttr e), se, es) : blk).
+    assert (Hx : mk_block stt (rev_append (e_ttr e) []) offs data = blk_block lz_compress x).
+    { unfold x, blk_block, block_of. rewrite Efs. now rewrite rev_append_rev, app_nil_r. }
+    exists (bl ++ [x]). split.
+    + unfold gfin. cbn [e_new e_blocks]. rewrite Hx. split; [reflexivity|].
+      split; [now rewrite Hbl, map_app|]. split; [|split; [|exact Hrec]].
+      * apply Forall_app. split; [assumption|]. constructor; [|constructor]. unfold x, gblk_ok.
+        repeat split; try assumption. lia.
+      * rewrite blocks_abs_app. unfold x. now rewrite N.add_0_l, Habs.
+    + rewrite blocks_len_app. unfold x. rewrite rev_length. lia.
+  - inversion H; subst e1; clear H.
+    assert (Hnil : e_ttr e = []).
+    { destruct (e_ttr e) eqn:E; [reflexivity|]. exfalso. assert (X : false = true) by (apply Hnew; discriminate). discriminate. }
+    rewrite (Hidle Hnil) in Habs. cbn [abs_from] in Habs. rewrite app_nil_r in Habs.
+    exists bl. split; [unfold gfin; repeat split; auto|]. rewrite Hnil in Hlen. cbn in Hlen. lia.
+Qed.
+
+Lemma gappend_fin str e o bl1 bl2 R1 R2 e' : gfin str e bl1 R1 -> gfin str o bl2 R2 ->
+  append lz_compress e o = Ok e' ->
+  gfin str e' (bl1 ++ bl2) (R1 ++ gshift (blocks_len bl1) R2).
+Proof.
+  intros (Hn1 & Hb1 & Hok1 & Ha1 & Hr1) (Hn2 & Hb2 & Hok2 & Ha2 & Hr2) H.
+  unfold append in H. rewrite (finish_block_idem lz_compress e Hn1), (finish_block_idem lz_compress o Hn2) in H. cbn [bind] in H.
+  assert (Hshift : map emb (gshift (blocks_len bl1) R2) = map (shift3 (blocks_len bl1)) (map emb R2)).
+  { unfold gshift. rewrite !map_map. apply map_ext. intros [g p]. reflexivity. }
+  assert (Hrs : Forall (payload_ok str) (gshift (blocks_len bl1) R2)).
+  { unfold gshift. rewrite Forall_forall in *. intros a Ha. apply in_map_iff in Ha as ([g p] & <- & Hin).
+    specialize (Hr2 _ Hin). unfold payload_ok in *. exact Hr2. }
+  destruct (e_blocks o) as [|first rest] eqn:Eo.
+  - inversion H; subst e'; clear H. assert (bl2 = []) by (destruct bl2; [reflexivity|discriminate]). subst bl2.
+    cbn [blocks_abs map] in Ha2. destruct R2; [|discriminate]. cbn [gshift map]. rewrite !app_nil_r.
+    unfold gfin. repeat split; auto.
+  - destruct (last_opt (e_blocks e)) as [lb|]; [|cbn in H; discriminate]. cbn [of_option bind] in H.
+    destruct (last_opt (b_tt lb)) as [ue|]; [|cbn in H; discriminate]. cbn [of_option bind] in H.
+    destruct (ue <=? b_start first); [|discriminate]. inversion H; subst e'; clear H.
+    unfold gfin. cbn [e_new e_blocks]. split; [exact Hn1|]. split; [now rewrite Hb1, Hb2, map_app|].
+    split; [apply Forall_app; now split|]. split; [|apply Forall_app; now split].
+    rewrite blocks_abs_app2, map_app, Ha1, Hshift, <- Ha2.
+    rewrite (N.add_comm 0 (blocks_len bl1)), blocks_abs_shift. reflexivity.
+Qed.
+
+Definition gthread_ok (str : bool) (x : encoder * list blk * list sentry * list gent) : Prop :=
+  let '(e, bl, es, R) := x in gsinv lz_compress cap id str e bl es R /\ gcost R < 4294967264.
+
+Lemma gappend_all_fin str : forall (ths : list (encoder * list blk * list sentry * list gent)) acc bla Ra e',
+  gfin str acc bla Ra -> Forall (gthread_ok str) ths ->
+  append_all lz_compress acc (map (fun x => fst (fst (fst x))) ths) = Ok e' ->
+  exists bls, Forall2 (fun b x => blocks_len b = N.of_nat (length (table (fst (fst (fst x)))))) bls ths /\
+    gfin str e' (bla ++ concat bls)
+         (Ra ++ gcat_shift (combine (map (fun x => snd x) ths) (map blocks_len bls)) (blocks_len bla)).
+Proof.
+  induction ths as [|[[[o blo] eso] Ro] ths IH]; intros acc bla Ra e' Hf Hok H; cbn [map append_all] in H.
+  - inversion H; subst e'. exists []. cbn [concat combine gcat_shift map]. rewrite !app_nil_r. split; [constructor|exact Hf].
+  - apply Forall_cons_iff in Hok as [[Hs Hbud] Hok]. cbn [fst] in H.
+    destruct (append lz_compress acc o) as [a| |] eqn:Ea; try discriminate. cbn [bind] in H.
+    destruct (append_unfold lz_compress acc o a Ea) as (acc1 & o1 & F1 & F2 & Ea').
+    assert (acc1 = acc).
+    { destruct Hf as (Hn & _). rewrite (finish_block_idem lz_compress acc Hn) in F1. now inversion F1. } subst acc1.
+    destruct (gfinish_block_fin str o blo eso Ro o1 Hs Hbud F2) as (blo' & Hfo & Hlo).
+    pose proof (gappend_fin str acc o1 bla blo' Ra Ro a Hf Hfo Ea') as Hfa.
+    destruct (IH a _ _ e' Hfa Hok H) as (bls & Hl & Hfe).
+    exists (blo' :: bls). split; [constructor; [exact Hlo|exact Hl]|].
+    cbn [concat map combine gcat_shift snd]. rewrite <- !app_assoc in Hfe. rewrite blocks_len_app2 in Hfe. exact Hfe.
+Qed.
+
+(* loading from a finished encoder *)
+Lemma gfin_load str e bl R blocks ttb : gfin str e bl R ->
+  enc_finish lz_compress e = Ok (blocks, ttb) -> N.of_nat (length ttb) < 4294967296 ->
+  exists sig, load_signal lz_decompress blocks id (rs_tpe str) = Ok sig /\
+              observe_signal sig = Ok (map (fun a : gent => (fst a, if str then KString else KReal, snd a)) (gdedup R)).
+Proof.
+  intros (Hn & Hb & Hok & Habs & Hrec) Hfin Hlen.
+  unfold WaveMem.enc_finish in Hfin. rewrite (finish_block_idem lz_compress e Hn) in Hfin. cbn [bind] in Hfin.
+  inversion Hfin; subst blocks ttb; clear Hfin. rewrite Hb in *.
+  rewrite (gload_signal_blocks lz_compress lz_decompress lz_ok str id bl Hok). eexists. split; [reflexivity|].
+  rewrite (gblks_spec_fold str bl 0 []) by (rewrite N.add_0_l, <- (flat_tt_len lz_compress bl); exact Hlen).
+  rewrite Habs, map_unemb_emb, push_canon_gdedup. cbn [last_opt option_map app]. fold (gdedup R).
+  destruct str.
+  - apply observe_strings.
+  - apply observe_reals. apply dedup_by_sub. exact Hrec.
+Qed.
+
+(* "however the recording was divided among parser threads", for real and string signals: k encoders, each fed its
+   own history, appended in order and finished; the loaded signal reports the recordings of the threads one after the
+   other, each thread's time indices shifted by the lengths of the time tables before it, de-duplicated across the
+   seams as well *)
+Theorem appended_transparent_rs str tpes (opss : list (list enc_op)) (encs : list encoder) first others e blocks ttb :
+  nth_error tpes id = Some (rs_tpe str) ->
+  Forall2 (fun ops en => run_ops parse_f64 lz_compress cap (enc_new tpes) ops = Ok en) opss encs ->
+  Forall (fun ops => Forall (rs_op_ok id str) ops /\ ops_cost id ops < 4294967264) opss ->
+  encs = first :: others ->
+  append_all lz_compress first others = Ok e ->
+  enc_finish lz_compress e = Ok (blocks, ttb) -> N.of_nat (length ttb) < 4294967296 ->
+  exists Rs sig,
+    Forall2 (fun R ops => Forall2 (gdecodes parse_f64 str) R (recorded_rs id ops [] false)) Rs opss /\
+    load_signal lz_decompress blocks id (rs_tpe str) = Ok sig /\
+    observe_signal sig
+    = Ok (map (fun a : gent => (fst a, if str then KString else KReal, snd a))
+              (gdedup (gcat_shift (combine Rs (map (fun ops => N.of_nat (length (accepted (times_of ops)))) opss)) 0))).
+Proof.
+  intros Htp Hruns Hops Hencs Happ Hfin Hlen.
+  assert (Hth : exists ths : list (encoder * list blk * list sentry * list gent),
+            map (fun x => fst (fst (fst x))) ths = encs /\ Forall (gthread_ok str) ths /\
+            Forall2 (fun R ops => Forall2 (gdecodes parse_f64 str) R (recorded_rs id ops [] false)) (map (fun x => snd x) ths) opss /\
+            Forall2 (fun x ops => table (fst (fst (fst x))) = accepted (times_of ops)) ths opss).
+  { clear Hencs Happ. induction Hruns as [|ops en opss encs Hrun Hruns IH].
+    - exists []. repeat split; constructor.
+    - apply Forall_cons_iff in Hops as [[Hok Hbud] Hops]. destruct (IH Hops) as (ths & Hm & Hto & Hdec & Htab).
+      destruct (grun_ops_sinv parse_f64 parse_f64_len lz_compress cap cap_pos cap_u16 id str ops _ [] [] [] en
+                  (gsinv_new lz_compress cap cap_pos cap_u16 id str tpes Htp) Hok ltac:(cbn [gcost]; lia) Hrun)
+        as (bl & es & R & Hs & Hrec & HcR).
+      cbn [app] in Hs. change (table (enc_new tpes)) with (@nil N) in Hrec. cbn [enc_new e_skip] in Hrec.
+      destruct (run_ops_inv parse_f64 lz_compress cap cap_pos ops _ _ (inv_new_enc tpes) Hrun) as [_ Ht].
+      exists ((en, bl, es, R) :: ths). cbn [map fst snd]. split; [now rewrite Hm|]. split; [|split].
+      + constructor; [|exact Hto]. split; [exact Hs|lia].
+      + constructor; assumption.
+      + constructor; [|exact Htab]. cbn [fst]. rewrite Ht. reflexivity. }
+  destruct Hth as (ths & Hm & Hto & Hdec & Htab).
+  destruct ths as [|[[[f blf] esf] Rf] ths]; [rewrite Hencs in Hm; discriminate|].
+  cbn [map fst] in Hm. rewrite Hencs in Hm. injection Hm as Hf Hothers. subst f.
+  apply Forall_cons_iff in Hto as [[Hsf Hbf] Hto].
+  destruct opss as [|ops0 opss]; [inversion Hdec|].
+  inversion Hdec as [|? ? ? ? Hdec0 Hdecs]; subst. inversion Htab as [|? ? ? ? Htab0 Htabs]; subst. cbn [fst snd] in *.
+  destruct (append_all_first lz_compress first _ e (blocks, ttb) Happ Hfin) as (f1 & Ef & e' & Happ' & Hfin').
+  destruct (gfinish_block_fin str first blf esf Rf f1 Hsf Hbf Ef) as (blf' & Hfin1 & Hl1).
+  destruct (gappend_all_fin str ths f1 blf' Rf e' Hfin1 Hto Happ') as (bls & Hlens & Hfe).
+  destruct (gfin_load str e' _ _ blocks ttb Hfe Hfin' Hlen) as (sig & Hload & Hobs).
+  exists (Rf :: map (fun x => snd x) ths), sig. split; [constructor; assumption|]. split; [exact Hload|].
+  rewrite Hobs. f_equal. f_equal. f_equal. cbn [map combine gcat_shift]. rewrite gshift_0. f_equal.
+  rewrite N.add_0_l, Hl1, Htab0. f_equal.
+  clear -Hlens Htabs. revert bls opss Hlens Htabs. induction ths as [|t0 ths IH]; intros bls opss Hl Ht.
+  - inversion Hl; subst. reflexivity.
+  - inversion Hl as [|b ? bls' ? Hb Hl']; subst. inversion Ht as [|? ops ? opss' Ho Ht']; subst.
+    cbn [map combine]. f_equal; [f_equal; now rewrite Hb, Ho|]. now apply IH.
+Qed.
+
+End GAppend.
+
+Lemma dedup_by_no_adjacent {A B} (eqb : B -> B -> bool) (key : A -> B) (l : list A) : forall prev,
+  no_adjacent eqb prev (map key (dedup_by eqb key l prev)).
+Proof.
+  induction l as [|a l IH]; intros prev; cbn [dedup_by map no_adjacent]; [exact I|].
+  destruct prev as [p|].
+  - destruct (eqb p (key a)) eqn:E; [apply IH|]. cbn [map no_adjacent]. split; [exact E|apply IH].
+  - cbn [map no_adjacent]. split; [exact I|apply IH].
+Qed.
+
+(* Property C06 for real and string signals: no two neighbours of the report carry the same bytes; a real is
+   reported as its 8 bytes *)
+Theorem loaded_rs_canonical
+  (parse_f64 : list byte -> option (list byte)) (parse_f64_len : forall r le, parse_f64 r = Some le -> length le = 8%nat)
+  (lz_compress : list byte -> list byte) (lz_decompress : list byte -> nat -> option (list byte))
+  (lz_ok : forall d n, (length d <= n)%nat -> lz_decompress (lz_compress d) n = Some d)
+  cap (cap_pos : 1 <= cap) (cap_u16 : cap <= 65536) id str tpes ops e blocks ttb :
+  nth_error tpes id = Some (rs_tpe str) ->
+  Forall (rs_op_ok id str) ops ->
+  ops_cost id ops < 4294967264 ->
+  run_ops parse_f64 lz_compress cap (enc_new tpes) ops = Ok e ->
+  enc_finish lz_compress e = Ok (blocks, ttb) -> N.of_nat (length ttb) < 4294967296 ->
+  exists sig (A : list gent),
+    load_signal lz_decompress blocks id (rs_tpe str) = Ok sig /\
+    observe_signal sig = Ok (map (fun a : gent => (fst a, if str then KString else KReal, snd a)) A) /\
+    no_adjacent list_eqb None (map snd A) /\
+    (str = false -> Forall (fun a : gent => length (snd a) = 8%nat) A).
+Proof.
+  intros Htp Hok Hbud Hrun Hfin Hlen.
+  destruct (storage_transparent_rs parse_f64 parse_f64_len lz_compress lz_decompress lz_ok cap cap_pos cap_u16 id str
+              tpes ops e blocks ttb Htp Hok Hbud Hrun Hfin Hlen) as (R & sig & Hdec & Hpay & Hload & Hobs).
+  exists sig, (gdedup R). split; [exact Hload|]. split; [exact Hobs|]. split.
+  - apply dedup_by_no_adjacent.
+  - intros ->. apply dedup_by_sub. exact Hpay.
+Qed.
 
 (* the hypotheses are satisfiable and the conclusion is what one expects: a string signal and a real signal, block
    capacity 2, a repeated string, a rejected (backwards) time step, a double handed over as bytes *)
